@@ -128,6 +128,42 @@ example : Jumps xMH xMC ["lc"] ["mnt", "c", "sub"] :=
       ⟨.link true ["mnt", "c", "sub"], by decide⟩ (by decide) (by decide))
     (by decide)
 
+theorem xMC_wf : CfgWF xMH xMC := ⟨by decide, by simp [OutDirReal, namei, xMH, xMC, Host.get], by decide⟩
+
+theorem xMH_direct : Direct xMH xMC := by
+  intro e he a t hl rel hrel hpre
+  simp only [xMH, List.mem_cons, List.not_mem_nil, or_false] at he
+  rcases he with rfl | rfl | rfl <;> try (cases hl)
+  have : rel = ["lc"] := by simpa [xMC] using hrel.symm
+  subst this
+  exact absurd hpre (by decide)
+
+theorem xMH_mountsReal : MountsReal xMH xMC := by
+  constructor
+  · intro e he hp _
+    simp only [xMC, List.mem_cons, List.not_mem_nil, or_false] at he
+    rcases he with rfl | rfl | rfl
+    · exact absurd hp (by decide)
+    · decide
+    · exact absurd hp (by decide)
+  · intro e he hp _ y hy hye
+    simp only [xMC, List.mem_cons, List.not_mem_nil, or_false] at he
+    rcases he with rfl | rfl | rfl
+    · exact absurd hp (by decide)
+    · have hyl : y = ["out", "m"] := isPrefixOf_eq_of_length y _ hye (by
+        have := hy.2
+        have h1 : xMC.ctrOut.length = 1 := rfl
+        simp only [List.length_cons, List.length_nil]; omega)
+      subst hyl; decide
+    · exact absurd hp (by decide)
+
+/-- the hypotheses of `C17_output_equals_tree_mounts_real` hold of a tree with a collection mounted
+beneath the output path and a link into another mounted collection -/
+example : OutputEqualsTree xMH xMC 60 [(["m"], .dir), (["m", "f"], .file [1]), (["lc"], .dir), (["lc", "z"], .file [3])] :=
+  C17_output_equals_tree_mounts_real xMH xMC ⟨by decide, by decide, by decide⟩ xMC_wf (by decide) (by decide)
+    ⟨by decide, { kind := "tmp" }, by decide, rfl, rfl⟩ xMH_direct xMH_mountsReal 60 _ xMH_scan _
+    (by simp [loadFrags, addFrag, mkParents, Tree.get, Tree.set])
+
 /-! ### failing trees -/
 
 /-- FIFO in a subdirectory -/
